@@ -885,7 +885,11 @@ def save_all_load_back(objs, tmpl, out, what):
     for o in objs:
         full = tmpl if os.path.splitext(tmpl)[-1] else tmpl + ".pickle"
         n1, n2 = o.get_filename_with_replaced_params(full), o.get_filename_with_replaced_params(full)
-        fn = o.save_to_file(tmpl)
+        try:
+            fn = o.save_to_file(tmpl)
+        except Exception as ex:
+            out.append((enc_exc_sig(ex), f"{what}: save_to_file raised {type(ex).__name__}: {ex}"))
+            return
         if n1 != n2 or fn != n1:
             out.append(("fname", f"{what}: the file name is not a function of the values: {n1!r}, {n2!r}, saved to {fn!r}"))
         names.append(fn)
